@@ -73,6 +73,8 @@ class ChildState:
         from pedal.core.report import MAIN_REPORT
         from pedal.core.submission import Submission
         from pedal.sandbox.commands import get_sandbox
+        import builtins as _b
+        self.base_builtins = len(vars(_b))
         self.base_stdout = sys.stdout
         self.base_sleep = _time.sleep
         self.base_trace = sys.gettrace()
@@ -116,6 +118,11 @@ class ChildState:
         if _time.sleep is not self.base_sleep:
             viol.append(('C05|time.sleep-not-restored', 'after %s: time.sleep is %r' % (what, _time.sleep)))
             _time.sleep = self.base_sleep
+        import builtins as _b
+        if len(vars(_b)) < self.base_builtins or 'StopIteration' not in vars(_b):
+            viol.append(('C05|interpreter-builtins-damaged', 'after %s: the interpreter\'s own builtins namespace lost %d names' % (what, self.base_builtins - len(vars(_b)))))
+            self.must_exit = True      # nothing in this process can be trusted any more: report, then leave
+            return viol
         if sys.gettrace() is not self.base_trace:
             cell = 'C05|trace-not-restored'
             if self.__dict__.get('blocked_under_coverage') and 'coverage' in type(sys.gettrace()).__module__:
@@ -224,6 +231,13 @@ class ChildState:
                     sb.block_module('colorsys')
                 elif rule == 'mock-io':
                     sb.mock_module('wave', {'open': lambda *a: None})
+                elif rule == 'block-real-sys':
+                    sb.block_module('sys')
+                elif rule == 'exec-globals-as-data':
+                    # student data taken from a dictionary that was used with exec(): its __builtins__ entry is the interpreter's own
+                    g = {}
+                    exec(BASE, g)
+                    sb.set_student_data(g)
                 else:
                     sb.clear_mocks()
                 what = 'module_rule(%s)' % rule
@@ -236,7 +250,8 @@ class ChildState:
         viol = self.check('%s [%s]' % (what, outcome))
         if kind == 'real_io' and op.get('allow'):
             return viol   # with real I/O allowed the probe text goes to the real stdout by design
-        viol += self.probe(what)
+        if not getattr(self, 'must_exit', False):
+            viol += self.probe(what)
         return viol
 
 
@@ -263,6 +278,9 @@ def child_main(rfd, wfd):
         try:
             viol = state.apply(op)
             out.write(json.dumps({'v': viol}) + '\n')
+            if getattr(state, 'must_exit', False):
+                out.flush()
+                os._exit(3)
         except BaseException as e:
             out.write(json.dumps({'err': ''.join(traceback.format_exception(type(e), e, e.__traceback__))[-3000:]}) + '\n')
     os._exit(0)
@@ -332,7 +350,7 @@ class Stepper:
                          st.fixed_dictionaries({'op': st.just('real_io'), 'allow': st.booleans()}),
                          st.fixed_dictionaries({'op': st.just('tracer'), 'style': st.sampled_from(['none', 'native', 'calls', 'coverage'])}),
                          # instructor-side module rules that touch the very things the sandbox borrows
-                         st.fixed_dictionaries({'op': st.just('module_rule'), 'rule': st.sampled_from(['block-time', 'mock-time-without-sleep', 'block-sys', 'mock-io', 'clear'])}))
+                         st.fixed_dictionaries({'op': st.just('module_rule'), 'rule': st.sampled_from(['block-time', 'mock-time-without-sleep', 'block-sys', 'mock-io', 'clear', 'block-real-sys', 'exec-globals-as-data'])}))
 
     def apply(self, op):
         self.history.append(op)
